@@ -210,6 +210,20 @@ func (la *lexAnalysis) run(fn *ssa.Function, entry lexStateSet, argDesc []string
 			}
 		}
 	}
+	// a phi of constants that the function returns (a result variable assigned an action code on several paths)
+	for _, b := range fn.Blocks {
+		ret, ok := b.Instrs[len(b.Instrs)-1].(*ssa.Return)
+		if !ok || len(ret.Results) == 0 {
+			continue
+		}
+		if phi, ok := ret.Results[0].(*ssa.Phi); ok {
+			for _, e := range phi.Edges {
+				if cst, ok := e.(*ssa.Const); ok && cst.Value != nil {
+					flagPhis[phi] = true
+				}
+			}
+		}
+	}
 	parseTag := func(tag string) map[string]string {
 		m := map[string]string{}
 		for _, kv := range strings.Split(tag, ",") {
@@ -509,6 +523,23 @@ func (la *lexAnalysis) run(fn *ssa.Function, entry lexStateSet, argDesc []string
 							sum.byConst[k] = lexStateSet{}
 						}
 						unionStates(sum.byConst[k], out)
+						continue
+					}
+				}
+				if phi, ok := ret.Results[0].(*ssa.Phi); ok && flagPhis[phi] {
+					// the value of a tracked result variable is known for the states of this job
+					if k := parseTag(curTag)[phi.Name()]; k != "" {
+						switch {
+						case isBoolType(phi.Type()) && k == "true":
+							unionStates(sum.onTrue, out)
+						case isBoolType(phi.Type()) && k == "false":
+							unionStates(sum.onFalse, out)
+						default:
+							if sum.byConst[k] == nil {
+								sum.byConst[k] = lexStateSet{}
+							}
+							unionStates(sum.byConst[k], out)
+						}
 						continue
 					}
 				}
